@@ -84,4 +84,10 @@ MUTANTS = [
     M('astx:bin:rhs-is-lhs', 'astx', ['C05', 'C06'], 'ast::BinExpr::rhs', '.nth(1)', '.nth(0)'),
     M('astx:while:body-second-expr', 'astx', ['C05', 'C06'], 'ast::WhileStmt::condition', 'first => first,', 'first => exprs.next(),'),
     M('astx:assign:rhs-first', 'astx', ['C05', 'C06'], 'ast::AssignmentStmt::rhs', '        if expr2.is_some() {\n            expr2\n        } else {\n            expr1\n        }', '        expr1'),
+    # ---- SEMA top level
+    M('sema:top:gate-dropped', 'sema', ['C11'], 'analyze_source', 'if parsed_source.have_syntax_errors() {', 'if false {'),
+    M('sema:top:gate-flag-wrong', 'sema', ['C11'], 'analyze_source', '            have_syntax_errors: true,', '            have_syntax_errors: false,'),
+    M('sema:top:annotations-dropped', 'sema', ['C06'], 'syntax_to_semantic', 'let anstmt = asg::AnnotatedStmt::new(stmt, context.take_annotations()).to_stmt();', 'let anstmt = asg::AnnotatedStmt::new(stmt, Vec::new()).to_stmt();'),
+    M('sema:top:include-desync', 'sema', ['C03'], 'syntax_to_semantic', 'if file_path == "stdgates.inc" {', 'if file_path == "stdgates.inc" || file_path == "qelib1.inc" {'),
+    M('sema:top:stmt-prepended', 'sema', ['C06'], 'Program::insert_stmt', 'self.stmts.push(stmt);', 'self.stmts.insert(0, stmt);'),
 ]
